@@ -20,7 +20,15 @@ Definition quiet (e : event) : bool :=
 Definition loud (e : event) : bool := negb (quiet e).
 Definition lt (s : ep) : list event := filter loud (trace s).
 
-Definition rv (s : ep) := (in_sess s, rx_tmp s, handled s, rx_map s, lt s).
+Definition rv (s : ep) := (in_sess s, rx_tmp s, handled s, rx_map s, lt s, end_acks (sent s)).
+
+Definition view := (bool * option (N * bytes) * list frame * list (N * bytes) * list event * list (N * N))%type.
+Definition v_sess (v : view) := fst (fst (fst (fst (fst v)))).
+Definition v_tmp (v : view) := snd (fst (fst (fst (fst v)))).
+Definition v_hd (v : view) := snd (fst (fst (fst v))).
+Definition v_map (v : view) := snd (fst (fst v)).
+Definition v_lt (v : view) := snd (fst v).
+Definition v_acks (v : view) := snd v.
 
 Lemma filter_app' {A} (f : A -> bool) a b : filter f (a ++ b) = filter f a ++ filter f b.
 Proof. induction a as [|x a IH]; cbn [filter app]; [reflexivity|]. destruct (f x); cbn [app]; rewrite IH; reflexivity. Qed.
@@ -49,10 +57,19 @@ Lemma rv_ka_reset s : rv (ka_reset s) = rv s. Proof. reflexivity. Qed.
 Lemma rv_idle_reset s : rv (idle_reset s) = rv s. Proof. reflexivity. Qed.
 Lemma rv_send_ready s : rv (send_ready s) = rv s.
 Proof. unfold send_ready. destruct (io_set s); match goal with |- context [if ?c then _ else _] => destruct c end; reflexivity. Qed.
-Lemma rv_send_frame f s : rv (send_frame f s) = rv s.
-Proof. unfold send_frame. rewrite rv_idle_reset, rv_ka_reset, rv_send_ready. reflexivity. Qed.
-Lemma rv_send_msg m s : rv (send_msg m s) = rv s.
-Proof. unfold send_msg. exact (rv_send_frame _ _). Qed.
+Lemma rv_send_frame_gen f s :
+  rv (send_frame f s) = (v_sess (rv s), v_tmp (rv s), v_hd (rv s), v_map (rv s), v_lt (rv s), v_acks (rv s) ++ end_ack_of f).
+Proof.
+  unfold send_frame. rewrite rv_idle_reset, rv_ka_reset, rv_send_ready.
+  unfold rv. cbn [sent set]. cbn. unfold end_acks. rewrite flat_map_app. cbn [flat_map]. rewrite app_nil_r. reflexivity.
+Qed.
+Lemma rv_send_frame f s : end_ack_of f = [] -> rv (send_frame f s) = rv s.
+Proof. intros H. rewrite rv_send_frame_gen, H, app_nil_r. reflexivity. Qed.
+Lemma rv_send_msg m s : end_ack_of (FMsg m) = [] -> rv (send_msg m s) = rv s.
+Proof. unfold send_msg. apply rv_send_frame. Qed.
+Lemma rv_send_msg_gen m s :
+  rv (send_msg m s) = (v_sess (rv s), v_tmp (rv s), v_hd (rv s), v_map (rv s), v_lt (rv s), v_acks (rv s) ++ end_ack_of (FMsg m)).
+Proof. unfold send_msg. apply rv_send_frame_gen. Qed.
 Lemma rv_do_close s : rv (do_close s) = rv s.
 Proof.
   unfold do_close. cbv zeta.
@@ -67,13 +84,13 @@ Proof. unfold send_buffer_decreased. destruct (_ <? _); [apply rv_pq_trigger|ref
 Lemma rv_check_sess_term s : rv (check_sess_term s) = rv s.
 Proof. unfold check_sess_term. destruct (_ && _); [apply rv_do_close|reflexivity]. Qed.
 Lemma rv_send_contact_header s : rv (send_contact_header s) = rv s.
-Proof. unfold send_contact_header. exact (rv_send_frame _ _). Qed.
+Proof. unfold send_contact_header. apply rv_send_frame. reflexivity. Qed.
 Lemma rv_send_sess_init s : rv (send_sess_init s) = rv s.
-Proof. unfold send_sess_init. cbv zeta. rv_norm. apply rv_send_msg. Qed.
+Proof. unfold send_sess_init. cbv zeta. rv_norm. apply rv_send_msg. reflexivity. Qed.
 Lemma rv_send_sess_term r b s : rv (fst (send_sess_term r b s)) = rv s.
 Proof.
   unfold send_sess_term. destruct (negb (in_sess s)); [reflexivity|]. destruct (in_term s); [reflexivity|].
-  cbv zeta. cbn [fst ok]. rewrite rv_send_msg, rv_set_state. reflexivity.
+  cbv zeta. cbn [fst ok]. rewrite rv_send_msg by reflexivity. rewrite rv_set_state. reflexivity.
 Qed.
 Lemma rv_escape r : rv (escape r) = rv (fst r).
 Proof. destruct r as [s [k|]]; cbn [escape fst]; [apply rv_emit|]; reflexivity. Qed.
@@ -82,8 +99,8 @@ Proof.
   unfold send_next. destruct (tx_tmp s) as [[id data]|]; [|reflexivity].
   cbv zeta. destruct (_ && _); [reflexivity|].
   match goal with |- context [if ?c then _ else _] => destruct c end.
-  - rewrite rv_pq_trigger. rv_norm. rewrite rv_send_msg. rv_norm. reflexivity.
-  - rewrite rv_send_msg. rv_norm. reflexivity.
+  - rewrite rv_pq_trigger. rv_norm. rewrite rv_send_msg by reflexivity. rv_norm. reflexivity.
+  - rewrite rv_send_msg by reflexivity. rv_norm. reflexivity.
 Qed.
 
 Lemma rv_process_queue s : rv (fst (process_queue s)) = rv s.
@@ -169,7 +186,7 @@ Proof.
   - (* OFireKa *)
     destruct (closed s); [reflexivity|].
     destruct (ka_due s) as [due|]; [|reflexivity].
-    destruct (due <=? now s); [|reflexivity]. rewrite rv_send_msg. rv_norm. reflexivity.
+    destruct (due <=? now s); [|reflexivity]. rewrite rv_send_msg by reflexivity. rv_norm. reflexivity.
   - (* OFireIdle *)
     destruct (closed s); [reflexivity|].
     destruct (idle_due s) as [due|]; [|reflexivity].
@@ -181,25 +198,18 @@ Proof.
 Qed.
 
 (** ** The view after handling one frame *)
-Definition view := (bool * option (N * bytes) * list frame * list (N * bytes) * list event)%type.
-Definition v_sess (v : view) := fst (fst (fst (fst v))).
-Definition v_tmp (v : view) := snd (fst (fst (fst v))).
-Definition v_hd (v : view) := snd (fst (fst v)).
-Definition v_map (v : view) := snd (fst v).
-Definition v_lt (v : view) := snd v.
-
-Lemma rv_eta s : rv s = (v_sess (rv s), v_tmp (rv s), v_hd (rv s), v_map (rv s), v_lt (rv s)).
+Lemma rv_eta s : rv s = (v_sess (rv s), v_tmp (rv s), v_hd (rv s), v_map (rv s), v_lt (rv s), v_acks (rv s)).
 Proof. reflexivity. Qed.
-Lemma rv_upd_rx_tmp v s : rv (s <| rx_tmp := v |>) = (v_sess (rv s), v, v_hd (rv s), v_map (rv s), v_lt (rv s)).
+Lemma rv_upd_rx_tmp v s : rv (s <| rx_tmp := v |>) = (v_sess (rv s), v, v_hd (rv s), v_map (rv s), v_lt (rv s), v_acks (rv s)).
 Proof. reflexivity. Qed.
-Lemma rv_upd_rx_map v s : rv (s <| rx_map := v |>) = (v_sess (rv s), v_tmp (rv s), v_hd (rv s), v, v_lt (rv s)).
+Lemma rv_upd_rx_map v s : rv (s <| rx_map := v |>) = (v_sess (rv s), v_tmp (rv s), v_hd (rv s), v, v_lt (rv s), v_acks (rv s)).
 Proof. reflexivity. Qed.
-Lemma rv_upd_in_sess v s : rv (s <| in_sess := v |>) = (v, v_tmp (rv s), v_hd (rv s), v_map (rv s), v_lt (rv s)).
+Lemma rv_upd_in_sess v s : rv (s <| in_sess := v |>) = (v, v_tmp (rv s), v_hd (rv s), v_map (rv s), v_lt (rv s), v_acks (rv s)).
 Proof. reflexivity. Qed.
-Lemma rv_upd_handled v s : rv (s <| handled := v |>) = (v_sess (rv s), v_tmp (rv s), v, v_map (rv s), v_lt (rv s)).
+Lemma rv_upd_handled v s : rv (s <| handled := v |>) = (v_sess (rv s), v_tmp (rv s), v, v_map (rv s), v_lt (rv s), v_acks (rv s)).
 Proof. reflexivity. Qed.
 Lemma rv_emit_loud e s : loud e = true ->
-  rv (emit e s) = (v_sess (rv s), v_tmp (rv s), v_hd (rv s), v_map (rv s), v_lt (rv s) ++ [e]).
+  rv (emit e s) = (v_sess (rv s), v_tmp (rv s), v_hd (rv s), v_map (rv s), v_lt (rv s) ++ [e], v_acks (rv s)).
 Proof. intros L. unfold rv at 1. rewrite lt_emit, L. reflexivity. Qed.
 Lemma rx_map_rv s : rx_map s = v_map (rv s). Proof. reflexivity. Qed.
 Lemma rx_tmp_rv s : rx_tmp s = v_tmp (rv s). Proof. reflexivity. Qed.
@@ -207,9 +217,81 @@ Lemma in_sess_rv s : in_sess s = v_sess (rv s). Proof. reflexivity. Qed.
 
 Ltac rv_push :=
   repeat first
-    [ rewrite rv_check_sess_term | rewrite rv_send_msg | rewrite rv_upd_rx_tmp | rewrite rv_upd_rx_map
+    [ rewrite rv_check_sess_term | rewrite rv_send_msg_gen | rewrite rv_upd_rx_tmp | rewrite rv_upd_rx_map
     | rewrite rv_emit by reflexivity | rewrite rv_emit_loud by reflexivity
-    | progress cbn [v_sess v_tmp v_hd v_map v_lt fst snd] ].
+    | progress cbn [v_sess v_tmp v_hd v_map v_lt v_acks fst snd] ].
+
+Ltac vcbn := cbn [v_sess v_tmp v_hd v_map v_lt v_acks fst snd].
+
+(** The part of [recv_xfer_data] after the transfer id check, as a function. *)
+Definition seg_tail (fl xid : N) (acc : bytes) (s1 : ep) : ep * outcome :=
+  let s := s1 <| rx_tmp := Some (xid, acc) |> in
+  let len := N.of_nat (length acc) in
+  let s := send_msg (MXferAck fl xid len) s in
+  if has_end fl then
+    let s := s <| rx_map := dict_set xid acc (rx_map s) |> in
+    let s := emit (ESig SigRecvFinished [PStrNum xid; PInt len; PStr RES_SUCCESS]) s in
+    (check_sess_term (s <| rx_tmp := None |>), Done)
+  else
+    (emit (ESig SigRecvInter [PStrNum xid; PInt len]) s, Done).
+
+Lemma handle_seg_eq fl xid ext data s :
+  handle_msg (MXferSeg fl xid ext data) s =
+  if negb (in_sess s) then (s, Reject REJ_UNEXPECTED)
+  else
+    match (if has_start fl
+           then Some (emit (ESig SigRecvStarted [PStrNum xid; PDbusStr]) (s <| rx_tmp := Some (xid, []) |>))
+           else match rx_tmp s with
+                | Some (cur, _) => if cur =? xid then Some s else None
+                | None => None
+                end) with
+    | None => (s, Reject REJ_UNEXPECTED)
+    | Some s1 => seg_tail fl xid (match rx_tmp s1 with Some (_, acc) => acc ++ data | None => data end) s1
+    end.
+Proof. reflexivity. Qed.
+
+(** Forward forms: from the view of a state to the view of an updated state. *)
+Lemma F_upd_rx_tmp s a b c d e f v : rv s = (a, b, c, d, e, f) -> rv (s <| rx_tmp := v |>) = (a, v, c, d, e, f).
+Proof. intros H. rewrite rv_upd_rx_tmp, H. reflexivity. Qed.
+Lemma F_upd_rx_map s a b c d e f v : rv s = (a, b, c, d, e, f) -> rv (s <| rx_map := v |>) = (a, b, c, v, e, f).
+Proof. intros H. rewrite rv_upd_rx_map, H. reflexivity. Qed.
+Lemma F_send_msg m s a b c d e f : rv s = (a, b, c, d, e, f) ->
+  rv (send_msg m s) = (a, b, c, d, e, f ++ end_ack_of (FMsg m)).
+Proof. intros H. rewrite rv_send_msg_gen, H. reflexivity. Qed.
+Lemma F_emit_loud ev s a b c d e f : loud ev = true -> rv s = (a, b, c, d, e, f) ->
+  rv (emit ev s) = (a, b, c, d, e ++ [ev], f).
+Proof. intros L H. rewrite rv_emit_loud by exact L. rewrite H. reflexivity. Qed.
+Lemma F_emit_quiet ev s v : quiet ev = true -> rv s = v -> rv (emit ev s) = v.
+Proof. intros Q H. rewrite rv_emit by exact Q. exact H. Qed.
+Lemma F_check_sess_term s v : rv s = v -> rv (check_sess_term s) = v.
+Proof. intros H. rewrite rv_check_sess_term. exact H. Qed.
+Lemma F_rx_map s a b c d e f : rv s = (a, b, c, d, e, f) -> rx_map s = d.
+Proof. intros H. rewrite rx_map_rv, H. reflexivity. Qed.
+Lemma F_rx_tmp s a b c d e f : rv s = (a, b, c, d, e, f) -> rx_tmp s = b.
+Proof. intros H. rewrite rx_tmp_rv, H. reflexivity. Qed.
+
+Lemma rv_seg_tail fl xid acc s1 a b c d e f : rv s1 = (a, b, c, d, e, f) ->
+  rv (fst (seg_tail fl xid acc s1)) =
+  if has_end fl then
+    (a, None, c, dict_set xid acc d,
+     e ++ [ESig SigRecvFinished [PStrNum xid; PInt (N.of_nat (length acc)); PStr RES_SUCCESS]],
+     f ++ [(xid, N.of_nat (length acc))])
+  else (a, Some (xid, acc), c, d, e, f).
+Proof.
+  intros E0. unfold seg_tail. cbv zeta.
+  pose proof (F_upd_rx_tmp _ _ _ _ _ _ _ (Some (xid, acc)) E0) as E1.
+  pose proof (F_send_msg (MXferAck fl xid (N.of_nat (length acc))) _ _ _ _ _ _ _ E1) as E2.
+  cbn [end_ack_of] in E2.
+  destruct (has_end fl) eqn:En.
+  - rewrite (F_rx_map _ _ _ _ _ _ _ E2).
+    pose proof (F_upd_rx_map _ _ _ _ _ _ _ (dict_set xid acc d) E2) as E3.
+    pose proof (F_emit_loud (ESig SigRecvFinished [PStrNum xid; PInt (N.of_nat (length acc)); PStr RES_SUCCESS])
+                  _ _ _ _ _ _ _ eq_refl E3) as E4.
+    pose proof (F_upd_rx_tmp _ _ _ _ _ _ _ None E4) as E5.
+    exact (F_check_sess_term _ _ E5).
+  - rewrite app_nil_r in E2.
+    exact (F_emit_quiet (ESig SigRecvInter [PStrNum xid; PInt (N.of_nat (length acc))]) _ _ eq_refl E2).
+Qed.
 
 Lemma rv_handle_seg fl xid ext data s :
   rv (fst (handle_msg (MXferSeg fl xid ext data) s)) =
@@ -219,27 +301,27 @@ Lemma rv_handle_seg fl xid ext data s :
     | Some acc =>
       if has_end fl then
         (in_sess s, None, handled s, dict_set xid (acc ++ data) (rx_map s),
-         lt s ++ [ESig SigRecvFinished [PStrNum xid; PInt (N.of_nat (length (acc ++ data))); PStr RES_SUCCESS]])
-      else (in_sess s, Some (xid, acc ++ data), handled s, rx_map s, lt s)
+         lt s ++ [ESig SigRecvFinished [PStrNum xid; PInt (N.of_nat (length (acc ++ data))); PStr RES_SUCCESS]],
+         end_acks (sent s) ++ [(xid, N.of_nat (length (acc ++ data)))])
+      else (in_sess s, Some (xid, acc ++ data), handled s, rx_map s, lt s, end_acks (sent s))
     end
   else rv s.
 Proof.
-  unfold handle_msg. destruct (in_sess s) eqn:IS; cbn [negb]; [|reflexivity].
+  rewrite handle_seg_eq. destruct (in_sess s) eqn:IS; cbn [negb]; [|reflexivity].
+  assert (E0 : rv s = (true, rx_tmp s, handled s, rx_map s, lt s, end_acks (sent s)))
+    by (unfold rv; rewrite IS; reflexivity).
   unfold rx_accept. destruct (has_start fl).
-  - cbv zeta. cbn [rx_tmp set emit].
-    destruct (has_end fl); cbn [fst].
-    + rewrite (rx_map_rv (send_msg _ _)). rv_push. unfold rv; cbn [fst snd]. rewrite IS. reflexivity.
-    + rv_push.  unfold rv; cbn [fst snd]. rewrite IS. reflexivity.
+  - pose proof (F_upd_rx_tmp _ _ _ _ _ _ _ (Some (xid, [])) E0) as E1.
+    pose proof (F_emit_quiet (ESig SigRecvStarted [PStrNum xid; PDbusStr]) _ _ eq_refl E1) as E2.
+    rewrite (F_rx_tmp _ _ _ _ _ _ _ E2).
+    exact (rv_seg_tail fl xid ([] ++ data) _ _ _ _ _ _ _ E2).
   - destruct (rx_tmp s) as [[c acc0]|] eqn:RT; [|reflexivity].
     destruct (c =? xid) eqn:Ec; [|reflexivity].
-    cbv zeta. rewrite RT.
-    destruct (has_end fl); cbn [fst].
-    + rewrite (rx_map_rv (send_msg _ _)). rv_push. unfold rv; cbn [fst snd]. rewrite IS. reflexivity.
-    + rv_push.  unfold rv; cbn [fst snd]. rewrite IS. reflexivity.
+    rewrite RT. exact (rv_seg_tail fl xid (acc0 ++ data) _ _ _ _ _ _ _ E0).
 Qed.
 
 Lemma rv_handle_init ka smru xmru nid ext s :
-  rv (fst (handle_msg (MSessInit ka smru xmru nid ext) s)) = (true, rx_tmp s, handled s, rx_map s, lt s).
+  rv (fst (handle_msg (MSessInit ka smru xmru nid ext) s)) = (true, rx_tmp s, handled s, rx_map s, lt s, end_acks (sent s)).
 Proof.
   unfold handle_msg. cbv zeta.
   match goal with |- context [merge_session_params ?x] =>
@@ -283,7 +365,7 @@ Qed.
 Lemma rv_recv_frame_msg m s : rv (fst (recv_frame (FMsg m) s)) = rv (fst (handle_msg m s)).
 Proof.
   unfold recv_frame. destruct (handle_msg m s) as [s1 [|r|k]]; cbn [fst ok raise]; [reflexivity| |reflexivity].
-  apply rv_send_msg.
+  apply rv_send_msg. reflexivity.
 Qed.
 
 Lemma rv_recv_frame_contact c s : rv (fst (recv_frame (FContact c) s)) = rv s.
@@ -423,11 +505,12 @@ Definition RinvS (st : rxspec) (v : view) : Prop :=
   (forall id d, In (id, d) (pop_events (v_lt v)) -> In (id, d) (sp_out st)) /\
   fold_left (rxmap_step (sp_out st)) (v_lt v) (O, []) = (length (sp_out st), v_map v) /\
   (forall id d, dict_get id (v_map v) = Some d -> In (id, d) (sp_out st)) /\
-  NoDup (map fst (v_map v)).
+  NoDup (map fst (v_map v)) /\
+  v_acks v = map dlen (sp_out st).
 
 Definition Rinv (s : ep) : Prop := RinvS (rx_spec (handled s)) (rv s).
 
-Lemma RinvS_hd st a b c d e c' : RinvS st (a, b, c, d, e) -> RinvS st (a, b, c', d, e).
+Lemma RinvS_hd st a b c d e f c' : RinvS st (a, b, c, d, e, f) -> RinvS st (a, b, c', d, e, f).
 Proof. exact (fun H => H). Qed.
 
 Lemma rx_step_other st f : seg_of_frame f = [] -> is_sess_init f = false -> rx_spec_step st f = st.
@@ -440,10 +523,11 @@ Lemma RinvS_deliver sess cur out v xid d :
   RinvS (sess, cur, out) v ->
   RinvS (sess, None, out ++ [(xid, d)])
         (v_sess v, None, v_hd v, dict_set xid d (v_map v),
-         v_lt v ++ [ESig SigRecvFinished [PStrNum xid; PInt (N.of_nat (length d)); PStr RES_SUCCESS]]).
+         v_lt v ++ [ESig SigRecvFinished [PStrNum xid; PInt (N.of_nat (length d)); PStr RES_SUCCESS]],
+         v_acks v ++ [(xid, N.of_nat (length d))]).
 Proof.
-  intros (H1 & H2 & H3 & H4 & H5 & H6 & H7).
-  unfold RinvS, sp_sess, sp_cur, sp_out in *. cbn [fst snd v_sess v_tmp v_hd v_map v_lt] in *.
+  intros (H1 & H2 & H3 & H4 & H5 & H6 & H7 & H8).
+  unfold RinvS, sp_sess, sp_cur, sp_out in *. cbn [fst snd v_sess v_tmp v_hd v_map v_lt v_acks] in *.
   repeat split.
   - exact H1.
   - unfold recv_finished_events in *. rewrite flat_map_app, H3, map_app. reflexivity.
@@ -459,14 +543,15 @@ Proof.
     + intros [= <-]. apply N.eqb_eq in E. subst. apply in_or_app. right. left. reflexivity.
     + intros Hg. apply in_or_app. left. apply H6, Hg.
   - apply dict_set_nodup, H7.
+  - rewrite H8, map_app. reflexivity.
 Qed.
 
 Lemma RinvS_pop st v id d :
   RinvS st v -> dict_get id (v_map v) = Some d ->
-  RinvS st (v_sess v, v_tmp v, v_hd v, dict_del id (v_map v), v_lt v ++ [EPop id d]).
+  RinvS st (v_sess v, v_tmp v, v_hd v, dict_del id (v_map v), v_lt v ++ [EPop id d], v_acks v).
 Proof.
-  intros (H1 & H2 & H3 & H4 & H5 & H6 & H7) Hg.
-  unfold RinvS in *. cbn [fst snd v_sess v_tmp v_hd v_map v_lt] in *.
+  intros (H1 & H2 & H3 & H4 & H5 & H6 & H7 & H8) Hg.
+  unfold RinvS in *. cbn [fst snd v_sess v_tmp v_hd v_map v_lt v_acks] in *.
   repeat split.
   - exact H1.
   - exact H2.
@@ -477,6 +562,7 @@ Proof.
   - rewrite fold_left_app, H5. reflexivity.
   - intros i d'. rewrite dict_get_del by exact H7. destruct (N.eqb id i); [discriminate|]. apply H6.
   - apply dict_del_nodup, H7.
+  - exact H8.
 Qed.
 
 (** ** One frame *)
@@ -500,8 +586,8 @@ Proof.
       destruct (has_end fl).
       * split; [|reflexivity]. apply (RinvS_deliver _ _ _ _ xid (acc ++ data)) in HR.
         change (v_sess (rv s)) with (in_sess s) in HR. rewrite H1 in HR. exact HR.
-      * split; [|reflexivity]. destruct HR' as (H3 & H4 & H5 & H6 & H7).
-        unfold RinvS. cbn [v_sess v_tmp v_hd v_map v_lt sp_sess sp_cur sp_out fst snd].
+      * split; [|reflexivity]. destruct HR' as (H3 & H4 & H5 & H6 & H7 & H8).
+        unfold RinvS. cbn [v_sess v_tmp v_hd v_map v_lt v_acks sp_sess sp_cur sp_out fst snd].
         repeat split; assumption.
     + rewrite rx_step_other by reflexivity. rewrite rv_handle_ack. split; [exact HR|reflexivity].
     + rewrite rx_step_other by reflexivity. rewrite rv_handle_refuse. split; [exact HR|reflexivity].
@@ -541,7 +627,7 @@ Proof.
     destruct (closed s); [exact HR|].
     destruct (dict_get id (rx_map s)) as [data|] eqn:G.
     + unfold Rinv. rewrite rv_emit_loud by reflexivity. rewrite rv_upd_rx_map.
-      cbn [v_sess v_tmp v_hd v_map v_lt fst snd].
+      cbn [v_sess v_tmp v_hd v_map v_lt v_acks fst snd].
       change (handled (emit _ _)) with (handled s).
       apply (RinvS_pop _ (rv s) id data HR G).
     + apply (Rinv_rv s); [apply rv_emit; reflexivity|exact HR].
@@ -610,7 +696,7 @@ Section Receiver.
     recv_finished_events (trace s) = map dlen (deliver_spec (handled s)).
   Proof.
     destruct (Rinv_run c ops) as (_ & _ & H & _). fold s in H.
-    unfold rv, lt in H. cbn [v_lt snd] in H. rewrite rfe_filter in H. exact H.
+    unfold rv, lt in H. cbn [v_lt fst snd] in H. rewrite rfe_filter in H. exact H.
   Qed.
 
   (** The session flag and the transfer being received are the specified ones. *)
@@ -631,14 +717,19 @@ Section Receiver.
   Proof. destruct (Rinv_run c ops) as (_ & _ & _ & _ & _ & H & _). apply H. Qed.
 
   Theorem rx_map_nodup : NoDup (map fst (rx_map s)).
-  Proof. destruct (Rinv_run c ops) as (_ & _ & _ & _ & _ & _ & H). exact H. Qed.
+  Proof. destruct (Rinv_run c ops) as (_ & _ & _ & _ & _ & _ & H & _). exact H. Qed.
+
+  (** The END-flagged XFER_ACKs sent are exactly the deliveries, in order
+      (one final acknowledgement per delivered transfer, carrying its length). *)
+  Theorem end_acks_spec : end_acks (sent s) = map dlen (deliver_spec (handled s)).
+  Proof. destruct (Rinv_run c ops) as (_ & _ & _ & _ & _ & _ & _ & H). exact H. Qed.
 
   (** Every pop returned a delivered bundle. *)
   Theorem pop_delivered id d :
     In (EPop id d) (trace s) -> In (id, d) (deliver_spec (handled s)).
   Proof.
     destruct (Rinv_run c ops) as (_ & _ & _ & H & _). fold s in H.
-    unfold rv, lt in H. cbn [v_lt snd] in H. rewrite pop_filter in H.
+    unfold rv, lt in H. cbn [v_lt fst snd] in H. rewrite pop_filter in H.
     intros Hin. apply H. apply pop_events_in, Hin.
   Qed.
 
